@@ -63,6 +63,10 @@ enum Case {
     Below { suite: String, n: u16, t: u16, signers: u32, seed: String },
     /// a large signer set with cheaters at the first, a middle and the last position
     Large { suite: String, signers: u16, seed: String },
+    /// the same oracle on key material / through entry points that went through something else first:
+    /// dealer refresh (unsorted list), distributed refresh, repair, a transported public key package, the
+    /// legacy (threshold-less) public key package, the re-randomized aggregate, the Taproot tweak wrappers
+    Provenance { suite: String, n: u16, t: u16, kind: String, cheaters: u32, key_odd: Option<bool>, seed: String },
     /// every error vector in GF(q)^k on a fixed non-degenerate session
     Tiny { q: u64, n: u16, t: u16, k: usize, seed: String },
 }
@@ -227,6 +231,28 @@ impl Prop for C04 {
             let k = if suite == "ed448" { tier.pick(40u16, 90u16) } else { tier.pick(100u16, 200u16) };
             out.push(serde_json::to_value(Case::Large { suite: suite.to_string(), signers: k, seed: format!("s{seed}") }).unwrap());
         }
+        for suite in REAL_SUITES {
+            let taproot = suite == "secp256k1-tr";
+            for (n, t) in [(3u16, 2u16), (4, 3)] {
+                if suite == "ed448" && n > 3 {
+                    continue;
+                }
+                let mut kinds = vec!["refresh-dealer", "refresh-dkg", "repair", "wire-pkp", "legacy-pkp", "rerandomized"];
+                if taproot {
+                    kinds.extend(["tr-tweak-none", "tr-tweak-root"]);
+                }
+                for kind in kinds {
+                    let parities: Vec<Option<bool>> = if taproot && kind.starts_with("tr-") { vec![Some(false), Some(true)] } else { vec![None] };
+                    for key_odd in parities {
+                        // signer set: t + 1 members where the group allows it; every non-empty cheater subset
+                        let k = std::cmp::min(n, t + 1) as usize;
+                        for ch in 1u32..(1u32 << k) {
+                            out.push(serde_json::to_value(Case::Provenance { suite: suite.to_string(), n, t, kind: kind.to_string(), cheaters: ch, key_odd, seed: format!("s{seed}") }).unwrap());
+                        }
+                    }
+                }
+            }
+        }
         for q in [7u64, 11, 13] {
             for k in 2..=tier.pick(3usize, 4usize) {
                 for (n, t) in [(k as u16, k as u16), (k as u16 + 1, 2u16)] {
@@ -254,6 +280,7 @@ impl Prop for C04 {
             Case::Real { suite, .. } => with_suite!(suite.as_str(), run_real, &c),
             Case::Below { suite, .. } => with_suite!(suite.as_str(), run_below, &c),
             Case::Large { suite, .. } => with_suite!(suite.as_str(), run_large, &c),
+            Case::Provenance { suite, .. } => with_suite!(suite.as_str(), run_provenance, &c),
             Case::Tiny { q, .. } => match q {
                 7 => run_tiny::<7>(&c),
                 11 => run_tiny::<11>(&c),
@@ -529,6 +556,177 @@ fn run_large<C: Suite>(c: &Case) -> Outcome {
         check_modes::<C>(&mut o, &tag, &ctx, &s, &honest, &errs, &agg, &shares, grp.pkp.verifying_key(), &m);
     }
     o.class("large");
+    o
+}
+
+fn run_provenance<C: Suite>(c: &Case) -> Outcome {
+    let mut o = Outcome::new();
+    let Case::Provenance { n, t, kind, cheaters, key_odd, seed, .. } = c else { unreachable!() };
+    let tag = format!("C04/{}/{kind}", C::name());
+    let grp = match group_with_parity::<C>(KeySrc::Dealer, *n, *t, IdKind::U16x, seed, *key_odd) {
+        Ok(g) => g,
+        Err(e) => {
+            o.eval(false);
+            o.fail(format!("{tag}/setup"), e);
+            return o;
+        }
+    };
+    let m = message(2);
+    // key material
+    let (kps, pkp, ids) = match kind.as_str() {
+        "refresh-dealer" | "refresh-dkg" | "repair" => {
+            let extra = std::cmp::min(*n, *t + 1) - *t;
+            match super::c03::maintained::<C>(&grp, kind, extra, seed) {
+                Ok(x) => x,
+                Err(e) => {
+                    o.eval(false);
+                    o.fail(format!("{tag}/maintenance-failed"), format!("n={n} t={t}: {e}"));
+                    return o;
+                }
+            }
+        }
+        "wire-pkp" => {
+            let via_json = cheaters % 2 == 0;
+            let w = if via_json {
+                serde_json::to_string(&grp.pkp).ok().and_then(|j| serde_json::from_str(&j).ok())
+            } else {
+                grp.pkp.serialize().ok().and_then(|b| fc::keys::PublicKeyPackage::<C>::deserialize(&b).ok())
+            };
+            match w {
+                Some(p) => (grp.kps.clone(), p, grp.ids.clone()),
+                None => {
+                    o.eval(false);
+                    o.fail(format!("{tag}/transport-failed"), format!("n={n} t={t}"));
+                    return o;
+                }
+            }
+        }
+        "legacy-pkp" => (grp.kps.clone(), fc::keys::PublicKeyPackage::<C>::new(grp.pkp.verifying_shares().clone(), *grp.pkp.verifying_key(), None), grp.ids.clone()),
+        _ => (grp.kps.clone(), grp.pkp.clone(), grp.ids.clone()),
+    };
+    let k = std::cmp::min(ids.len(), *t as usize + 1);
+    let s: Vec<Id<C>> = ids[ids.len() - k..].to_vec();
+    let sseed = format!("{seed}:{kind}:{cheaters}");
+    let (nonces, comms) = commit_all::<C>(&kps, &s, &sseed);
+    let pkg = fc::SigningPackage::<C>::new(comms.clone(), &m);
+    let root: Option<Option<Vec<u8>>> = match kind.as_str() {
+        "tr-tweak-none" => Some(None),
+        "tr-tweak-root" => Some(Some(vec![0x5a; 32])),
+        _ => None,
+    };
+    // honest shares, honest signature, the key it verifies under, and the aggregators
+    let mut shares = BTreeMap::new();
+    let mut rr_params = None;
+    if kind == "rerandomized" {
+        let mut rng = crate::rng::ScriptedRng::ctr(format!("c04-rr:{sseed}"));
+        match frost_rerandomized::RandomizedParams::<C>::new_from_commitments(pkp.verifying_key(), &comms, &mut rng) {
+            Ok((p, sd)) => {
+                for id in &s {
+                    match C::w_rr_sign(&pkg, &nonces[id], &kps[id], &sd) {
+                        Ok(sh) => {
+                            shares.insert(*id, sh);
+                        }
+                        Err(e) => {
+                            o.eval(false);
+                            o.fail(format!("{tag}/honest-sign-failed"), format!("{e:?}"));
+                            return o;
+                        }
+                    }
+                }
+                rr_params = Some(p);
+            }
+            Err(e) => {
+                o.eval(false);
+                o.fail(format!("{tag}/params-failed"), format!("{e:?}"));
+                return o;
+            }
+        }
+    } else {
+        for id in &s {
+            let r = match &root {
+                Some(rt) => C::w_sign_with_tweak(&pkg, &nonces[id], &kps[id], rt.as_deref()).expect("taproot suite"),
+                None => C::w_sign(&pkg, &nonces[id], &kps[id]),
+            };
+            match r {
+                Ok(sh) => {
+                    shares.insert(*id, sh);
+                }
+                Err(e) => {
+                    o.eval(false);
+                    o.fail(format!("{tag}/honest-sign-failed"), format!("{e:?}"));
+                    return o;
+                }
+            }
+        }
+    }
+    let pkp_used: fc::keys::PublicKeyPackage<C> = match &root {
+        Some(rt) => C::w_tweaked_pkp(&pkp, rt.as_deref()).expect("taproot suite"),
+        None => pkp.clone(),
+    };
+    let vk: fc::VerifyingKey<C> = match &rr_params {
+        Some(p) => *p.randomized_verifying_key(),
+        None => *pkp_used.verifying_key(),
+    };
+    let agg: Box<dyn Fn(&BTreeMap<Id<C>, SignatureShare<C>>, CheaterDetection) -> Result<fc::Signature<C>, fc::Error<C>>> = match &rr_params {
+        Some(p) => {
+            let (pkg2, pkp2, p2) = (pkg.clone(), pkp.clone(), p.clone());
+            Box::new(move |sh, cd| C::w_rr_aggregate_custom(&pkg2, sh, &pkp2, cd, &p2))
+        }
+        None => {
+            let (pkg2, pkp2) = (pkg.clone(), pkp_used.clone());
+            Box::new(move |sh, cd| C::w_aggregate_custom(&pkg2, sh, &pkp2, cd))
+        }
+    };
+    let honest = match agg(&shares, CheaterDetection::FirstCheater) {
+        Ok(x) => x,
+        Err(e) => {
+            o.eval(false);
+            o.fail(format!("{tag}/honest-aggregate-failed"), format!("n={n} t={t}: {e:?}"));
+            return o;
+        }
+    };
+    let chs = mask_indices(*cheaters);
+    let mut errs = vec![zero::<C>(); k];
+    let mut bad = shares.clone();
+    for ci in &chs {
+        let zi = share_scalar::<C>(&shares[&s[*ci]]);
+        errs[*ci] = one::<C>();
+        bad.insert(s[*ci], share_from_scalar::<C>(zi + one::<C>()));
+    }
+    o.eval(true);
+    o.count("provenance_fault_sets", 1);
+    let ctx = format!("n={n} t={t} {kind} key_odd={key_odd:?} S={:?} cheaters(pos)={chs:?}", s.iter().map(|i| id_short::<C>(i)).collect::<Vec<_>>());
+    check_modes::<C>(&mut o, &tag, &ctx, &s, &honest, &errs, &*agg, &bad, &vk, &m);
+    // the entry points without a mode argument behave like FirstCheater
+    let mut wrong: Vec<Id<C>> = chs.iter().map(|ci| s[*ci]).collect();
+    sort_ids_numeric::<C>(&mut wrong);
+    let plain: Option<Result<fc::Signature<C>, fc::Error<C>>> = match (&root, &rr_params) {
+        (Some(rt), _) => C::w_aggregate_with_tweak(&pkg, &bad, &pkp, rt.as_deref()),
+        (None, Some(p)) => Some(C::w_rr_aggregate(&pkg, &bad, &pkp, p)),
+        (None, None) => Some(C::w_aggregate(&pkg, &bad, &pkp)),
+    };
+    match plain {
+        Some(Ok(_)) => o.fail(format!("{tag}/released-despite-wrong-shares"), ctx.clone()),
+        Some(Err(e)) => {
+            let got = culprit_set::<C>(&e);
+            if got != vec![id_hex::<C>(&wrong[0])] {
+                o.fail(format!("{tag}/first-cheater-wrong"), format!("{ctx}: the mode-less aggregate named {got:?}, expected exactly the numerically lowest wrong signer {}", id_short::<C>(&wrong[0])));
+            }
+        }
+        None => {}
+    }
+    // stand-alone share verification against the package actually used
+    if rr_params.is_none() {
+        for (i, id) in s.iter().enumerate() {
+            if let Some(vs) = pkp_used.verifying_shares().get(id) {
+                let r = fc::verify_signature_share(*id, vs, &bad[id], &pkg, pkp_used.verifying_key());
+                if r.is_ok() != (errs[i] == zero::<C>()) {
+                    o.fail(format!("{tag}/verify-share-wrong"), format!("{ctx}: pos {i}: ok={}", r.is_ok()));
+                }
+            }
+        }
+    }
+    o.class(format!("provenance-{kind}"));
     o
 }
 
